@@ -18,6 +18,8 @@ def spec(tier):
     else:
         obs += parts("E5.on_change", F, "on_change", 12, 200,
                      what="serve_onChange with two contentChanges (incremental) / one (full sync)")
+    obs += [XH("R.reopen", F, "reopen", 250 if tier == "quick" else 900, path_timeout=120,
+               what="didOpen, 1-2 unsaved single-line ranged edits at symbolic positions, [didClose,] didOpen again with the file on disk unchanged: the server's text and outline are those of the disk text again (real handlers over the in-memory disk)")]
     return dict(
         obligations=obs,
         functions=["FortranFile.apply_change", "FortranFile.set_contents", "parser.splitlines",
